@@ -11,7 +11,9 @@ TRUSTED_BASE = [
     "exact mode: reflection coefficients are dyadic rationals of modulus <= 0.98; model in exact Gaussian rationals, "
     "compared at rtol 1e-9 (orders <= 16)",
 ]
-PARTIAL = ["LSFs strictly increasing inside (0, pi) (interlacing theorem for minimum-phase polynomials): oracle only",
+PARTIAL = ["interlacing of the zeros of the sum and difference polynomials (the order in which P- and Q-angles alternate) is not proved; "
+           "proved for real minimum-phase polynomials (all |k_i| < 1): every zero of both polynomials lies on the unit circle, is simple, "
+           "the two have no common zero, and relative to the roots contract the sorted positive angles are p distinct values in (0, pi)",
            "poly <-> lsf inverse pair: proved relative to the numpy.roots / numpy.poly contract only (C11.lsf_roundtrip_algebra; the zero "
            "remainder of deconvolve is proved: lsf_deflation_exists); the root finding itself is a parameter"]
 ASSUMPTIONS = ["domain: |k_i| <= 0.98, orders 1..16"]
